@@ -31,6 +31,8 @@ def rand_fixture(rng, pf, name, params=(), **kw):
     autouse = rng.random() < 0.15
     body = ("yield 1",) if rng.random() < 0.3 else ("return 1",)
     doc = "doc of %s" % name if rng.random() < 0.3 else None
+    if kw.get("oneline"):
+        doc = None
     if "ret" not in kw:
         # a return annotation, chosen without drawing from the PRNG (the case stream stays what it was):
         # same-named fixtures in different files get different types, so `which definition` shows in
@@ -67,7 +69,8 @@ def gen_workspace(rng, depth=None, force=None):
             rand_fixture(rng, cf, name)
             rand_fixture(rng, cf, name)
         elif mode == "overrides":
-            rand_fixture(rng, cf, name, params=(name,), multiline=rng.random() < 0.15)
+            shape = rng.random()
+            rand_fixture(rng, cf, name, params=(name,), multiline=shape < 0.15, oneline=0.15 <= shape < 0.3)
         elif mode in ("star", "star_abs", "explicit", "explicit_as", "plugins"):
             mod = "fx_l%d" % lvl
             if mode in ("star", "explicit", "explicit_as") and rng.random() < 0.2:
